@@ -73,7 +73,8 @@ def replay(d):
         print("replay: no configuration recorded")
         return 2
     cfg["flexargs"] = tuple(cfg.get("flexargs", ()))
-    inp = {"sources": case["sources"], "sched": info.get("sched") or [0]}
+    inp = {"sources": case["sources"], "sched": info.get("sched") or [0],
+           "bufsize": info.get("bufsize", 0), "flags": info.get("flags", 0)}
     if case.get("cmp_deliv"):
         inp["cmp_deliv"] = True
         inp["flags"] = 1
